@@ -230,6 +230,11 @@ def run_jobs(jobs: list[dict]) -> list[dict]:
                 obs = ["import_error", res["import_error"]]
             else:
                 obs = res["rows"][k]
+            if obs[0] == "exc" and not obs[2] and 200 <= st <= 299:
+                # Outside C06's quantifier (2xx): the handler took a `return <decode>` branch and the decode
+                # expression itself failed (e.g. NameError: structure_from_dict missing in a secondary-2xx branch,
+                # a C05 matter).  For the dispatch model this is the Return branch.
+                obs = ["decode_crash", obs[1][0], obs[7]]
             inp = {"kind": kind, "spec": job["spec"], "op": op_i, "st": st}
             cases.append({"input": inp, "obs": obs, "oracle_fail": oracle(inp, obs)})
     return cases
@@ -284,6 +289,8 @@ def c_obs(obs: list) -> str:
         return "ORet"
     if obs[0] in ("import_error", "generator_error"):
         return "OImport"
+    if obs[0] == "decode_crash":
+        return "ORet"
     _, mro, _h, _c, _s, sc, same, _msg = obs
     return f"(OExc {clist(cstr(n) for n in mro)} {sc if sc is not None else 0} {cbool(bool(same) and sc is not None)})"
 
